@@ -160,12 +160,19 @@ class Src:
         return r
 
     # ---- functions ---------------------------------------------------------------
-    def find_fn(self, name, impl=None, nth=0):
-        """returns dict(start, body_open, body_close, sig, body, line)."""
+    def find_fn(self, name, impl=None, nth=0, nested_in=None):
+        """returns dict(start, body_open, body_close, sig, body, line).  nested_in=(fn name, impl): a fn item nested in that fn's body."""
         s, m = self.text, self.mask
         pat = re.compile(
             r"(?m)^[ \t]*((?:pub\s*(?:\([^)]*\))?\s+)?(?:const\s+)?(?:unsafe\s+)?fn\s+" + re.escape(name) + r")\s*[<(]")
-        if impl is None:
+        if nested_in is not None:
+            outer = self.find_fn(nested_in[0], nested_in[1], 0)
+            excl = []
+            ranges = [(outer["body_open"], outer["body_close"])]
+            impl_for_depth = None
+        if nested_in is not None:
+            pass
+        elif impl is None:
             excl = [(b, e) for (_, _, b, e) in self.impls()]
             ranges = [(0, len(s))]
         else:
@@ -179,7 +186,7 @@ class Src:
                     continue
                 if any(b < st < e for (b, e) in excl):
                     continue
-                if impl is not None:
+                if impl is not None and nested_in is None:
                     # must be at depth 1 of the impl block (not a nested fn)
                     if self._depth(lo, st) != 1:
                         continue
